@@ -4,26 +4,106 @@ import Mathlib.Algebra.Algebra.Rat
 import Mathlib.Algebra.Algebra.Basic
 import Mathlib.Tactic.Module
 
-/-! C08 spike: the conformal identities from the defining relations alone, in any ℚ-algebra
-    (so for every base dimension and every base signature at once) -/
+/-! C08: the conformal identities from the defining relations alone, in any ℚ-algebra
+    (so for every base dimension and every base signature at once).
+
+`x`, `y` are base vectors (`x*x = qx`, `y*y = qy`, `x*y + y*x = 2b`), `ep`, `en` the two added basis vectors
+(`ep² = 1`, `en² = -1`), all base vectors anticommute with `ep`, `en`, and `ep`, `en` anticommute.
+For vectors `a·b = ½(ab + ba)` and `a∧b = ½(ab − ba)`; for a vector `v` and the bivector `E0`,
+`v∧E0 = ½(v E0 + E0 v)`. -/
+
+namespace Conf
 
 variable {A : Type} [Ring A] [Algebra ℚ A]
 
-/-- `up x = x + ½x² einf + eo` is null -/
-theorem up_null (x ep en : A) (q : ℚ)
-    (hx : x * x = q • (1 : A)) (hep : ep * ep = 1) (hen : en * en = -1)
-    (h1 : x * ep + ep * x = 0) (h2 : x * en + en * x = 0) (h3 : ep * en + en * ep = 0) :
-    let einf := en + ep
-    let eo := (1/2 : ℚ) • (en - ep)
-    let X := x + (q/2) • einf + eo
-    X * X = 0 := by
-  intro einf eo X
-  have hX : X = x + ((q+1)/2) • en + ((q-1)/2) • ep := by
-    simp only [X, einf, eo]; module
-  rw [hX]
-  simp only [mul_add, add_mul, smul_mul_assoc, mul_smul_comm, smul_smul]
-  have e1 : x * en = -(en * x) := eq_neg_of_add_eq_zero_left h2
-  have e2 : x * ep = -(ep * x) := eq_neg_of_add_eq_zero_left h1
-  have e3 : ep * en = -(en * ep) := eq_neg_of_add_eq_zero_left h3
-  rw [hx, hen, hep, e1, e2, e3]
+/-- the defining relations between one base vector and the added pair -/
+structure Rel (x ep en : A) (q : ℚ) : Prop where
+  hx : x * x = q • (1 : A)
+  hep : ep * ep = 1
+  hen : en * en = -1
+  h1 : x * ep = -(ep * x)
+  h2 : x * en = -(en * x)
+  h3 : ep * en = -(en * ep)
+
+section
+variable {x ep en : A} {q : ℚ}
+
+theorem Rel.hx' (r : Rel x ep en q) (z : A) : x * (x * z) = q • z := by rw [← mul_assoc, r.hx, smul_mul_assoc, one_mul]
+theorem Rel.hep' (r : Rel x ep en q) (z : A) : ep * (ep * z) = z := by rw [← mul_assoc, r.hep, one_mul]
+theorem Rel.hen' (r : Rel x ep en q) (z : A) : en * (en * z) = -z := by rw [← mul_assoc, r.hen, neg_mul, one_mul]
+theorem Rel.h1' (r : Rel x ep en q) (z : A) : x * (ep * z) = -(ep * (x * z)) := by rw [← mul_assoc, r.h1, neg_mul, mul_assoc]
+theorem Rel.h2' (r : Rel x ep en q) (z : A) : x * (en * z) = -(en * (x * z)) := by rw [← mul_assoc, r.h2, neg_mul, mul_assoc]
+theorem Rel.h3' (r : Rel x ep en q) (z : A) : ep * (en * z) = -(en * (ep * z)) := by rw [← mul_assoc, r.h3, neg_mul, mul_assoc]
+end
+
+/-- normalise products of `x`, `ep`, `en` to the monomial order `en < ep < x`, then compare coefficients -/
+macro "cga_nf" r:term : tactic => `(tactic| (
+  simp only [mul_add, add_mul, mul_sub, sub_mul, smul_mul_assoc, mul_smul_comm, smul_smul, mul_assoc, mul_one, one_mul,
+    neg_mul, mul_neg, neg_neg, smul_neg, neg_smul, smul_add, smul_sub,
+    ($r).hx, ($r).hep, ($r).hen, ($r).h1, ($r).h2, ($r).h3, ($r).hx', ($r).hep', ($r).hen', ($r).h1', ($r).h2', ($r).h3']))
+
+def einf (ep en : A) : A := en + ep
+def eo (ep en : A) : A := (1/2 : ℚ) • (en - ep)
+/-- `E0 = einf ∧ eo = ½(einf·eo − eo·einf)` -/
+def E0 (ep en : A) : A := (1/2 : ℚ) • (einf ep en * eo ep en - eo ep en * einf ep en)
+/-- `up x = x + ½ x² einf + eo` -/
+def up (x ep en : A) (q : ℚ) : A := x + (q/2) • einf ep en + eo ep en
+
+variable {x ep en : A} {q : ℚ}
+
+theorem eo_null (r : Rel x ep en q) : eo ep en * eo ep en = 0 := by
+  unfold eo; cga_nf r; module
+
+theorem einf_null (r : Rel x ep en q) : einf ep en * einf ep en = 0 := by
+  unfold einf; cga_nf r; module
+
+/-- `eo · einf = -1` -/
+theorem eo_dot_einf (r : Rel x ep en q) :
+    (1/2 : ℚ) • (eo ep en * einf ep en + einf ep en * eo ep en) = -1 := by
+  unfold eo einf; cga_nf r; module
+
+theorem E0_eq (r : Rel x ep en q) : E0 ep en = -(en * ep) := by
+  unfold E0 eo einf; cga_nf r; module
+
+theorem E0_sq (r : Rel x ep en q) : E0 ep en * E0 ep en = 1 := by
+  rw [E0_eq r]; cga_nf r
+
+/-- `up x` is null -/
+theorem up_null (r : Rel x ep en q) : up x ep en q * up x ep en q = 0 := by
+  unfold up eo einf; cga_nf r; module
+
+/-- `up x · einf = -1` -/
+theorem up_dot_einf (r : Rel x ep en q) :
+    (1/2 : ℚ) • (up x ep en q * einf ep en + einf ep en * up x ep en q) = -1 := by
+  unfold up eo einf; cga_nf r; module
+
+/-- `homo`: a scaled point `s • X` has `-(sX)·einf = s`, so dividing by it removes the scale -/
+theorem homo_scale (r : Rel x ep en q) (s : ℚ) :
+    -((1/2 : ℚ) • ((s • up x ep en q) * einf ep en + einf ep en * (s • up x ep en q))) = s • (1 : A) := by
+  unfold up eo einf; cga_nf r; module
+
+/-- `down (up x) = ((up x) ∧ E0) * E0 = x` -/
+theorem down_up (r : Rel x ep en q) :
+    ((1/2 : ℚ) • (up x ep en q * E0 ep en + E0 ep en * up x ep en q)) * E0 ep en = x := by
+  rw [E0_eq r]; unfold up eo einf; cga_nf r; module
+
+/-- two base vectors: the distance identity `up x · up y = -½ (x - y)²` -/
+theorem up_dot_up {y : A} {qy b : ℚ} (r : Rel x ep en q) (ry : Rel y ep en qy)
+    (hxy : x * y + y * x = (2 * b) • (1 : A)) :
+    (1/2 : ℚ) • (up x ep en q * up y ep en qy + up y ep en qy * up x ep en q)
+      = (-(1/2 : ℚ) * (q + qy - 2 * b)) • (1 : A) := by
+  have hyx : y * x = (2 * b) • (1 : A) - x * y := by rw [← hxy]; abel
+  unfold up eo einf
+  simp only [mul_add, add_mul, mul_sub, sub_mul, smul_mul_assoc, mul_smul_comm, smul_smul, mul_assoc, mul_one, one_mul,
+    neg_mul, mul_neg, neg_neg, smul_neg, neg_smul, smul_add, smul_sub,
+    r.hx, r.hep, r.hen, r.h1, r.h2, r.h3, r.hx', r.hep', r.hen', r.h1', r.h2', r.h3',
+    ry.hx, ry.h1, ry.h2, ry.hx', ry.h1', ry.h2', hyx]
   module
+
+/-- `(x - y)² = x² + y² - (xy + yx)` for the statement above -/
+theorem sub_sq_base {y : A} {qy b : ℚ} (r : Rel x ep en q) (ry : Rel y ep en qy)
+    (hxy : x * y + y * x = (2 * b) • (1 : A)) : (x - y) * (x - y) = (q + qy - 2 * b) • (1 : A) := by
+  have : (x - y) * (x - y) = x * x + y * y - (x * y + y * x) := by noncomm_ring
+  rw [this, r.hx, ry.hx, hxy]; module
+
+end Conf
